@@ -111,16 +111,19 @@ static void fpow_check(mpz_t *tab, mpz_srcptr b, mpz_srcptr e, mpz_srcptr m, con
 	mpz_t r, want;
 	mpz_init(r), mpz_init(want);
 	ref_pow(want, b, e, m);
-	for (int v = 0; v < 2; v++)
+	for (int v = 0; v < 4; v++)
 	{
 		bool threw = false;
 		try
 		{
-			if (v) tmcg_mpz_fspowm(tab, r, b, e, m); else tmcg_mpz_fpowm(tab, r, b, e, m);
+			// v >= 2: result variable aliases the exponent (the library itself calls it that way)
+			if (v >= 2) mpz_set(r, e);
+			if (v == 1) tmcg_mpz_fspowm(tab, r, b, e, m); else if (v == 0) tmcg_mpz_fpowm(tab, r, b, e, m);
+			else if (v == 3) tmcg_mpz_fspowm(tab, r, b, r, m); else tmcg_mpz_fpowm(tab, r, b, r, m);
 		}
 		catch (std::exception &ex) { threw = true; }
 		R->ok();
-		const char *nm = v ? "fpow/fspowm" : "fpow/fpowm";
+		const char *nm = v == 1 ? "fpow/fspowm" : (v == 0 ? "fpow/fpowm" : (v == 3 ? "fpow/fspowm/aliased" : "fpow/fpowm/aliased"));
 		if (expect_throw)
 		{
 			if (!threw)
